@@ -32,6 +32,7 @@ FLAGSETS = {
 BRACES = [('{a,b}', ['a', 'b']), ('{a,.a}', ['a', '.a']), ('{1..3}', ['1', '2', '3']), ('{a,{b,c}}', ['a', 'b', 'c']),
           ('{a|b,c}', ['a|b', 'c']), ('{,a}', ['', 'a']), ('{a,a}', ['a', 'a']), ('{*,?a}', ['*', '?a']),
           ('{!a,b}', ['!a', 'b'])]
+PROBES = ['a', 'ab', '.a', 'a.a', 'b', 'x/a', 'a/', '!a', 'a|b', '|']
 BR_PRE = ['', 'x', '*', '!']
 BR_SUF = ['', '*', '.a']
 
@@ -114,7 +115,17 @@ def compare(mode, how, pats, ex, fs, ref, res, want_counts=None):
         v = run.viol('decomposition', dict(inp, name=c.witness), {'match': c.accs[1]}, {'match': c.accs[0]})
         res.add_violation(ID, v)
         return
-    # public entry points on the explored witness set are covered by langcmp's per-state replay of both matchers;
+    # the public one-shot entry points (match and filter, which re-run the whole list logic per call) on probe names
+    match = mod.globmatch if mode == 'glob' else mod.fnmatch
+    filt = mod.globfilter if mode == 'glob' else mod.filter
+    for name in PROBES:
+        want = bool(ref.match(name))
+        a = match(name, pats, flags=fl, exclude=ex)
+        b = bool(filt([name], pats, flags=fl, exclude=ex))
+        res.n['traces_validated_against_impl'] += 2
+        if a != want or b != want:
+            res.add_violation(ID, run.viol('decomposition', dict(inp, name=name), {'match': want}, {'match': a, 'filter': b}))
+            return
     # translate() list lengths:
     if want_counts is not None:
         try:
@@ -261,4 +272,5 @@ def replay(v):
     filt = mod.globfilter if inp['mode'] == 'glob' else mod.filter
     a = match(inp['name'], inp['patterns'], flags=fl, exclude=inp['exclude'])
     b = bool(filt([inp['name']], inp['patterns'], flags=fl, exclude=inp['exclude']))
-    return {'violates': a != v['expected']['match'], 'observed': {'match': a, 'filter': b}}
+    want = v['expected']['match']
+    return {'violates': a != want or b != want, 'observed': {'match': a, 'filter': b}}
